@@ -26,12 +26,16 @@ import (
 
 func TestMain(m *testing.M) { vk.Main(m) }
 
-// knownOpen lists the panic classes (matrix/site: message) that are already triaged as genuine defects of
-// plush and still open. A failing cell whose class is listed is counted with r.Exclude(class) instead of
-// being reported, so the exhaustive matrices and the random phase keep exploring past it. Empty it (or
-// delete single lines) as the defects get fixed in /repo: every class not listed is a VIOLATION.
-// Class names carry the source line of the panic site, so an entry also goes stale (= is reported again)
-// when the file above it changes.
+// knownOpen lists the panic root causes that are triaged as genuine defects of plush and still open
+// (all reproduce with plain plush.Render outside this harness). A key is "<innermost plush function>@<file>:
+// <normalised panic message>", i.e. a Class without its leading "<matrix>/" (a full class name is accepted
+// too). A failing cell whose class is listed is counted with r.Exclude(<key>) instead of being reported, so
+// the matrices and the random phase keep exploring past it; every other panic is a VIOLATION (one per root
+// cause, with the smallest witness). Delete lines (or empty the table) as the defects get fixed in /repo.
+// Keys carry no line numbers, so they survive unrelated edits of the file; the NOTE line printed for every
+// class at the end of a run lists the exact file:line sites seen. While a key is listed, another bug that
+// panics in the same function with the same message is hidden (for "reflect: index out of range" the key
+// additionally says whether the cell had a negative/extreme operand, so a lost upper-bound check still shows).
 var knownOpen = map[string]bool{
 	"arrayOperator@compiler.go: reflect: call of unknown method on wrong-kind Value":                        true,
 	"evalAccessIndex@compiler.go: hash of unhashable type T":                                                true,
@@ -496,6 +500,9 @@ var (
 )
 
 func smaller(a, b Case) bool {
+	if (a.Matrix == "random") != (b.Matrix == "random") {
+		return b.Matrix == "random" // a matrix cell is a better witness than a random program
+	}
 	if len(a.Vars) != len(b.Vars) {
 		return len(a.Vars) < len(b.Vars)
 	}
@@ -864,11 +871,26 @@ func helperNames() []string {
 
 func matrixHelper(r *vk.Run, b *builder) {
 	l2 := argLists(pool, 2)
+	if r.Quick() { // quick: 0-1 arguments from the whole pool; pairs where at least one side is one of every third pool value
+		third := map[*pv]bool{}
+		for i, p := range pool {
+			if i%3 == 0 || p.Odd && i%2 == 0 {
+				third[p] = true
+			}
+		}
+		var keep [][]*pv
+		for _, l := range l2 {
+			if len(l) < 2 || third[l[0]] || third[l[1]] {
+				keep = append(keep, l)
+			}
+		}
+		l2 = keep
+	}
 	l3 := argLists(eight(), 3)
 	if r.Thorough() { // three arguments from 24 kinds
-		var more []*pv
+		more := eight()
 		for i, p := range pool {
-			if i%4 == 0 {
+			if i%4 == 0 && !containsPV(more, p) {
 				more = append(more, p)
 			}
 		}
@@ -950,7 +972,6 @@ type progGen struct {
 	t     *rapid.T
 	used  map[string]bool
 	fns   []string // template-defined functions defined so far (never reassigned, bodies only call earlier ones)
-	arity map[string]int
 	lets  []string // let-variables: never used as callee, so no recursion can be built
 	loops int
 }
@@ -1245,6 +1266,15 @@ func (g *progGen) stmts(d int, inLoop, inFn bool) string {
 	return sb.String()
 }
 
+func containsPV(xs []*pv, p *pv) bool {
+	for _, x := range xs {
+		if x == p {
+			return true
+		}
+	}
+	return false
+}
+
 func contains(xs []string, s string) bool {
 	for _, x := range xs {
 		if x == s {
@@ -1255,7 +1285,7 @@ func contains(xs []string, s string) bool {
 }
 
 func genProgram(t *rapid.T) Case {
-	g := &progGen{t: t, used: map[string]bool{}, arity: map[string]int{}}
+	g := &progGen{t: t, used: map[string]bool{}}
 	body := g.stmts(3, false, false)
 	var vs []*pv
 	for _, p := range pool { // pool order, not map order
@@ -1376,7 +1406,7 @@ func TestProp(t *testing.T) {
 	runCells(r, "member: pool x 50 member shapes + pool x .Add(pool)", matrixMember)
 	runCells(r, "for: (pool + 20 derived iterables) x 13 loop shapes + pool x pool nested", matrixFor)
 	runCells(r, "call: (pool + 10 derived callees) x 0-3 arguments from 6 kinds x block/no block + 1-2 arguments from the whole pool + results used", matrixCall)
-	runCells(r, "helper: every built-in x 0-2 arguments from the whole pool (+block for 0-1) + 3 arguments from 8 kinds + 2 of 8 with block + option maps/composition x pool", matrixHelper)
+	runCells(r, "helper: every built-in x 0-2 arguments from the whole pool (quick tier: pairs with at least one side in a 45-value subset; +block for 0-1) + 3 arguments from 8 kinds (thorough: 30) + 2 of 8 with block + option maps/composition x pool", matrixHelper)
 	runCells(r, "stmt: pool x 23 statement shapes", matrixStmt)
 
 	r.Rapid("random", r.Pick(20000, 150000), func(t *rapid.T) *vk.Fail {
